@@ -58,8 +58,9 @@ fn observe_tx(tx: &MultiEraTx, tix: usize, out: &mut Observed, counts: &mut Vec<
 
 /// Content of the byte string at node `b` as it stands in the mutated bytes.
 fn content_of<'a>(flat: &'a Flat, enc: &'a Encoded, m: &Mutation, b: usize) -> &'a [u8] {
-    match (m, &enc.embedded) {
-        (Mutation::Embedded(j, _), Some((off, _))) if *j == b => &enc.bytes[*off..enc.spans[b].1],
+    let _ = m;
+    match &enc.embedded {
+        Some((j, off, _)) if *j == b => &enc.bytes[*off..enc.spans[b].1],
         _ => locate::bytes_of(flat.nodes[b]).unwrap(),
     }
 }
@@ -318,6 +319,24 @@ struct Stats {
     samples: BTreeMap<&'static str, Value>,
 }
 
+/// Thorough tier: every single-site mutation again, on top of each whole-item
+/// form that the decoder accepts for this artefact (all containers indefinite;
+/// all integers with 8-byte heads).
+fn composed(ctx: &Ctx, s: &Subject, singles: &[Mutation]) -> Vec<Mutation> {
+    let mut out = vec![];
+    for base in [Mutation::AllIndef, Mutation::WidenAllInts(8)] {
+        let enc = mutate::encode(s.root, &base);
+        if let Outcome::Accepted(_) = check_case(ctx, s, &base, &enc) {
+            for m in singles {
+                if m.site().is_some() {
+                    out.push(Mutation::Compose(vec![base.clone(), m.clone()]));
+                }
+            }
+        }
+    }
+    out
+}
+
 fn run_subject(ctx: &Ctx, s: &Subject, muts: &[Mutation], check_every: usize, stats: &mut Stats) {
     let norm = mutate::normalize(s.root);
     // (class, outcome, differs, sample)
@@ -395,6 +414,10 @@ pub fn run(ctx: Ctx) -> ! {
         let mut muts = vec![Mutation::Identity];
         muts.extend(mutate::enumerate(&flat, &|_| true, Families::ALL, true));
         let s = Subject { name: &a.name, kind: Kind::Tx(era), root: &root, flat: &flat, tx: Some(&loc), block: None, original: &a.bytes };
+        if ctx.thorough {
+            let extra = composed(&ctx, &s, &muts);
+            muts.extend(extra);
+        }
         run_subject(&ctx, &s, &muts, 1, &mut stats);
         originals += 1;
         // era-sniffing entry point on the shipped bytes
@@ -419,27 +442,28 @@ pub fn run(ctx: Ctx) -> ! {
         let Some(loc) = locate::locate_block(&flat) else {
             mc_core::report::machinery_failure(&format!("{}: not a block shape", a.name))
         };
-        let mut scope = vec![false; flat.len()];
-        if ctx.thorough {
-            scope.iter_mut().for_each(|x| *x = true);
-        } else {
-            for &i in &loc.skeleton {
-                scope[i] = true;
-            }
-            for i in loc.header..flat.end[loc.header] {
-                scope[i] = true;
-            }
-            for t in loc.txs.iter().take(3) {
-                for r in [Some(t.body), t.witness, t.aux].into_iter().flatten() {
-                    for i in r..flat.end[r] {
-                        scope[i] = true;
-                    }
+        let mut near = vec![false; flat.len()];
+        for &i in &loc.skeleton {
+            near[i] = true;
+        }
+        for i in loc.header..flat.end[loc.header] {
+            near[i] = true;
+        }
+        for t in loc.txs.iter().take(3) {
+            for r in [Some(t.body), t.witness, t.aux].into_iter().flatten() {
+                for i in r..flat.end[r] {
+                    near[i] = true;
                 }
             }
         }
         let mut muts = vec![Mutation::Identity];
-        muts.extend(mutate::enumerate(&flat, &|i| scope[i], Families::ALL, true));
+        muts.extend(mutate::enumerate(&flat, &|i| ctx.thorough || near[i], Families::ALL, true));
         let s = Subject { name: &a.name, kind: Kind::Block, root: &root, flat: &flat, tx: None, block: Some(&loc), original: &a.bytes };
+        if ctx.thorough {
+            let near_singles = mutate::enumerate(&flat, &|i| near[i], Families::ALL, false);
+            let extra = composed(&ctx, &s, &near_singles);
+            muts.extend(extra);
+        }
         run_subject(&ctx, &s, &muts, if ctx.thorough { 64 } else { 16 }, &mut stats);
         originals += 1;
         let (tag, sub) = match loc.era_tag {
@@ -469,6 +493,10 @@ pub fn run(ctx: Ctx) -> ! {
         let mut muts = vec![Mutation::Identity];
         muts.extend(mutate::enumerate(&flat, &|_| true, Families::ALL, true));
         let s = Subject { name, kind: Kind::Header(*tag, *sub), root: &root, flat: &flat, tx: None, block: None, original: bytes };
+        if ctx.thorough {
+            let extra = composed(&ctx, &s, &muts);
+            muts.extend(extra);
+        }
         run_subject(&ctx, &s, &muts, 1, &mut stats);
         originals += 1;
     }
@@ -536,14 +564,14 @@ pub fn run(ctx: Ctx) -> ! {
         "by_mutation_class" => by_class,
         "per_artefact_first" => smallest,
         "skipped" => skipped,
-        "block_scope" => if ctx.thorough { "every node of every block" } else { "block skeleton, header, and the first three transactions of every block" },
+        "block_scope" => if ctx.thorough { "every node of every block; plus, on top of the all-indefinite and the all-8-byte-integer forms, every site of the skeleton, header and first three transactions" } else { "block skeleton, header, and the first three transactions of every block" },
         "exhaustive" => true,
     };
     ctx.finish(
         Level::Exploration,
         cov,
         &[
-            "re-encodings are the finite single-site set of the mutator plus whole-item ones; combinations of two or more sites are not enumerated (except the all-at-once forms)",
+            "re-encodings are the finite single-site set of the mutator plus whole-item ones (thorough: also each single site on top of two whole-item forms); other combinations of two or more sites are not enumerated",
             "spans of the mutated encodings come from the harness' own writer, cross-checked against the independent strict parser on the self-checked subset",
             "re-encodings rejected by the typed decoder are counted and skipped (rejecting is allowed)",
         ],
